@@ -341,13 +341,16 @@ def lt_form(t: ast.AST) -> Optional[Tuple[ast.AST, bool, ast.AST]]:
   return None
 
 
-def guards_of(ff: FuncFlow, node: ast.AST) -> List[Tuple[ast.AST, bool]]:
+def guards_of(ff: FuncFlow, node: ast.AST, implied: bool = True) -> List[Tuple[ast.AST, bool]]:
   """(test, polarity) of enclosing if/ifexp/while conditions of `node`.
 
   Tests are reported in positive form: `not c`, `a is not b`, `a != b`, `a not in b` become (c | a is b | a == b | a in b) with
-  the polarity flipped - so `if x is not None: S` guards S by (x is None, False)."""
+  the polarity flipped - so `if x is not None: S` guards S by (x is None, False).
+
+  With `implied` (default) the early-exit style is read like if/else: a statement that follows `if c: ...return/raise/continue/break`
+  (an if without else whose body always leaves) in the same block is guarded by (c, False)."""
   from fjsa.canon import _positive
-  raw = _guards_raw(ff, node)
+  raw = _guards_raw(ff, node, implied)
   out = []
   for t, pol in raw:
     t2, sw = _positive(t)
@@ -355,8 +358,25 @@ def guards_of(ff: FuncFlow, node: ast.AST) -> List[Tuple[ast.AST, bool]]:
   return out
 
 
-def _guards_raw(ff: FuncFlow, node: ast.AST) -> List[Tuple[ast.AST, bool]]:
+def _guards_raw(ff: FuncFlow, node: ast.AST, implied: bool = True) -> List[Tuple[ast.AST, bool]]:
   out = []
+  if implied:
+    from fjsa.canon import _leaves
+    mm = ff.module
+    ch = node
+    par = mm.parent_of.get(ch)
+    while par is not None and par is not ff.fi.node.__class__:
+      for fld in ('body', 'orelse', 'finalbody'):
+        blk = getattr(par, fld, None)
+        if isinstance(blk, list) and any(ch is s_ for s_ in blk):
+          for s_ in blk:
+            if s_ is ch:
+              break
+            if isinstance(s_, ast.If) and not s_.orelse and _leaves(s_.body):
+              out.append((s_.test, False))
+      if par is ff.fi.node or isinstance(par, (ast.FunctionDef, ast.AsyncFunctionDef, ast.Lambda)):
+        break
+      ch, par = par, mm.parent_of.get(par)
   m = ff.module
   child = node
   n = m.parent_of.get(node)
@@ -421,3 +441,61 @@ def carried_reads(ff: FuncFlow, loop: ast.AST, name: str) -> List[ast.Name]:
       elif isinstance(x, ast.AugAssign) and isinstance(x.target, ast.Name) and x.target.id == name:
         out.append(x.target)
   return out
+
+
+def bound_args(ff: FuncFlow, call: ast.Call) -> Dict[str, ast.AST]:
+  """parameter name -> argument expression for a call that resolves to a repository function, method or class (dataclass
+  fields or __init__), whichever way (positionally / by keyword) the arguments are written. Keyword arguments are always
+  included, so for unresolved callees the result is just the keywords."""
+  out: Dict[str, ast.AST] = {k.arg: k.value for k in call.keywords if k.arg}
+  try:
+    r = ff.callee(call)
+  except Exception:  # pylint: disable=broad-except
+    return out
+  pos = None
+  if r.kind == 'func' and isinstance(r.func.node, (ast.FunctionDef, ast.AsyncFunctionDef)):
+    pos = list(r.func.positional_params)
+    if pos and pos[0] in ('self', 'cls') and isinstance(call.func, ast.Attribute):
+      base = ff.repo.resolve(ff.scope_at(call), call.func.value)
+      if base.kind != 'class':
+        pos = pos[1:]
+    pos = pos[len(r.bound_args):]
+    for k, v in (r.bound_kwargs or {}).items():
+      out.setdefault(k, v)
+  elif r.kind == 'class' and r.cls is not None:
+    init = r.cls.methods.get('__init__')
+    if init is not None:
+      pos = list(init.positional_params)[1:]
+    elif getattr(r.cls, 'fields', None):
+      pos = [f for f, _, _ in r.cls.fields]
+  if pos:
+    for p, a in zip(pos, [a for a in call.args if not isinstance(a, ast.Starred)]):
+      out[p] = a
+  return out
+
+
+def ntxt(e: ast.AST) -> str:
+  """Source text with the operands of products and sums in sorted order (a * b == b * a, a + b + c == c + a + b): for comparing
+  arithmetic expressions whose operand order is immaterial."""
+  if isinstance(e, ast.BinOp) and isinstance(e.op, (ast.Mult, ast.Add)):
+    ops: List[ast.AST] = []
+
+    def flat(x):
+      if isinstance(x, ast.BinOp) and type(x.op) is type(e.op):
+        flat(x.left)
+        flat(x.right)
+      else:
+        ops.append(x)
+    flat(e)
+    sym = ' * ' if isinstance(e.op, ast.Mult) else ' + '
+    parts = sorted(ntxt(o) if not isinstance(o, ast.BinOp) else '(' + ntxt(o) + ')' for o in ops)
+    return sym.join(parts)
+  if isinstance(e, ast.BinOp):
+    l = ntxt(e.left) if not isinstance(e.left, ast.BinOp) else '(' + ntxt(e.left) + ')'
+    r = ntxt(e.right) if not isinstance(e.right, ast.BinOp) else '(' + ntxt(e.right) + ')'
+    return f'{l} {_OPSYM.get(type(e.op), "?")} {r}'
+  return txt(e)
+
+
+_OPSYM = {ast.Sub: '-', ast.Div: '/', ast.FloorDiv: '//', ast.Mod: '%', ast.Pow: '**', ast.LShift: '<<', ast.RShift: '>>',
+          ast.BitAnd: '&', ast.BitOr: '|', ast.BitXor: '^', ast.MatMult: '@'}
